@@ -584,6 +584,17 @@ class Executor:
                 else:
                     raise Unsupported('items() of a non-dict')
             return res
+        if isinstance(e, ast.Call) and isinstance(e.func, ast.Name) and e.func.id == 'enumerate' and len(e.args) == 1 \
+                and not e.keywords:
+            res = []
+            for inner, s1 in self.ev_iter(e.args[0], st, fr):
+                if isinstance(inner, Exc):
+                    res.append((inner, s1))
+                elif inner[0] in ('list', 'rlist', 'dict', 'range'):
+                    res.append((('enum', inner), s1))
+                else:
+                    raise Unsupported('enumerate() of ' + str(inner[0]))
+            return res
         if isinstance(e, ast.Call) and isinstance(e.func, ast.Name) and e.func.id == 'reversed' and len(e.args) == 1:
             res = []
             for l, s1 in self.ev(e.args[0], st, fr):
@@ -610,6 +621,9 @@ class Executor:
 
     def loop(self, n, st, fr, itv):
         spec = self.specs.loop_spec(fr.fi, n, self.table)
+        full_itv = itv
+        if itv is not None and itv[0] == 'enum':
+            itv = itv[1]          # structure of the iterated collection; loop_cond gets the full descriptor
         if itv is not None and itv[0] == 'tuple':
             # statically unrolled
             yield from self.unroll_tuple(n, st, fr, itv[1].items, 0)
@@ -622,7 +636,7 @@ class Executor:
                 st.loc['$iter'] = _IterBox(itv)
                 if itv[0] == 'dict':
                     st.assume(*sym.dict_wf(st.heap, itv[1].t))
-            yield from self.unrolled(n, st, fr, itv, idx_name, 0)
+            yield from self.unrolled(n, st, fr, full_itv, idx_name, 0)
             return
         if spec is None:
             raise Unsupported(f'loop without invariant in {fr.fi.qualname}: `{_loop_header(n)}`')
@@ -694,7 +708,7 @@ class Executor:
                 # automatic invariant of every for-loop over a list/dict: the cursor never passes the end
                 inv_state.assume(k <= iter_len(inv_state))
         # ---- (3) one arbitrary iteration
-        for cont, sb in self.loop_cond(n, inv_state.fork(), fr, itv, idx_name):
+        for cont, sb in self.loop_cond(n, inv_state.fork(), fr, full_itv, idx_name):
             if isinstance(cont, Exc):
                 yield 'raise', cont.name, sb
                 continue
@@ -770,6 +784,11 @@ class Executor:
             return out
         k = st.loc[idx_name].t
         kind = itv[0]
+        counted = False
+        if kind == 'enum':            # enumerate(xs): (position, element)
+            counted = True
+            itv = itv[1]
+            kind = itv[0]
         if kind == 'range':
             lo, hi = itv[1], itv[2]
             cond = lo.t + k < hi.t
@@ -794,6 +813,9 @@ class Executor:
                 return val if what == 'values' else vtuple([key, val])
         else:
             raise Unsupported('iteration kind')
+        if counted:
+            elem0 = elem
+            elem = lambda s: vtuple([vint(k), elem0(s)])
         out = []
         for side, s2 in self.split(st, cond, f'for {_src(n.target)} in {_src(n.iter)}'):
             if side:
